@@ -199,6 +199,7 @@ pub struct StreamWorld {
     events: usize,
     last_was_special: bool,
     last_reject: Option<&'static str>,
+    err_texts: std::cell::RefCell<std::collections::BTreeMap<(usize, usize), String>>,
 }
 
 const SENTINEL: u8 = 0xC3;
@@ -228,6 +229,7 @@ enum PullResult {
 
 struct PullObs {
     res: PullResult,
+    err_text: Option<String>,
     /// classic only: (message buffer before, after, tag var after)
     c17: Option<(Vec<u8>, Vec<u8>, u8)>,
     peak_alloc: usize,
@@ -273,6 +275,7 @@ impl StreamWorld {
 
     fn do_pull(rx: &mut Rx, flavour: RxFlavour, ct: &[u8], ad: Option<&[u8]>) -> PullObs {
         let mut c17 = None;
+        let mut err_text: Option<String> = None;
         crate::kit::alloc::arm();
         let r = guarded(|| -> Option<(Vec<u8>, u8)> {
             match (rx, flavour) {
@@ -287,14 +290,17 @@ impl StreamWorld {
                             m.truncate(n);
                             Some((m, tag))
                         }
-                        Err(_) => None,
+                        Err(e) => {
+                            err_text = Some(format!("{:?}", e));
+                            None
+                        }
                     }
                 }
                 (Rx::Object(o), RxFlavour::Object) => {
                     let ctv = ct.to_vec();
                     let adv = ad.map(|a| a.to_vec());
                     let r: Result<(Vec<u8>, Tag), _> = o.pull(&ctv, adv.as_ref());
-                    r.ok().map(|(m, t)| (m, t.bits()))
+                    r.map_err(|e| { err_text = Some(format!("{:?}", e)); e }).ok().map(|(m, t)| (m, t.bits()))
                 }
                 #[cfg(feature = "nightly")]
                 (Rx::Object(o), RxFlavour::ObjectHeap) => {
@@ -302,12 +308,12 @@ impl StreamWorld {
                     let ctv = ct.to_vec();
                     let adv = ad.map(|a| a.to_vec());
                     let r: Result<(dryoc::protected::HeapBytes, Tag), _> = o.pull(&ctv, adv.as_ref());
-                    r.ok().map(|(m, t)| (m.as_slice().to_vec(), t.bits()))
+                    r.map_err(|e| { err_text = Some(format!("{:?}", e)); e }).ok().map(|(m, t)| (m.as_slice().to_vec(), t.bits()))
                 }
                 (Rx::Object(o), _) => {
                     let ctv = ct.to_vec();
                     let adv = ad.map(|a| a.to_vec());
-                    o.pull_to_vec(&ctv, adv.as_ref()).ok().map(|(m, t)| (m, t.bits()))
+                    o.pull_to_vec(&ctv, adv.as_ref()).map_err(|e| { err_text = Some(format!("{:?}", e)); e }).ok().map(|(m, t)| (m, t.bits()))
                 }
             }
         });
@@ -317,10 +323,28 @@ impl StreamWorld {
             Ok(None) => PullResult::Reject,
             Err((l, m)) => PullResult::Unwind(l, m),
         };
-        PullObs { res, c17, peak_alloc }
+        PullObs { res, err_text, c17, peak_alloc }
     }
 
     /// Judgements that apply to every delivery whatever it was (C04, C17).
+    fn judge_errtext(&self, obs: &PullObs, ct_len: usize, ad_len: usize, out: &mut Out) {
+        if let (PullResult::Reject, Some(t)) = (&obs.res, &obs.err_text) {
+            let mut m = self.err_texts.borrow_mut();
+            match m.get(&(ct_len, ad_len)) {
+                Some(prev) if prev != t => out.violate(
+                    "C17",
+                    "c17.errtext",
+                    site(&[("receiver", &format!("stream.{}", self.cfg.rx.name()))]),
+                    format!("two rejected pulls of identical lengths produced different error values, so the error depends on the rejected bytes: {:?} vs {:?}", prev, t),
+                ),
+                Some(_) => out.probe("c17.errtext_compared"),
+                None => {
+                    m.insert((ct_len, ad_len), t.clone());
+                }
+            }
+        }
+    }
+
     fn judge_common(&self, obs: &PullObs, ct_len: usize, fault: &str, out: &mut Out) {
         let lc = if ct_len < 17 { "<overhead" } else if ct_len == 17 { "=overhead" } else { ">overhead" };
         let recv = format!("stream.{}", self.cfg.rx.name());
@@ -506,6 +530,7 @@ impl World for StreamWorld {
             events: 0,
             last_was_special: false,
             last_reject: None,
+            err_texts: std::cell::RefCell::new(std::collections::BTreeMap::new()),
         }
     }
 
@@ -842,6 +867,7 @@ impl World for StreamWorld {
                 };
                 out.op();
                 self.judge_common(&obs, ct.len(), kind.kind(), out);
+                self.judge_errtext(&obs, ct.len(), ad.as_ref().map(|a| a.len()).unwrap_or(0), out);
                 out.cell(&format!("wrong|{}|{}|{}|{}", self.cfg.counter.name(), kind.kind(), tag_class(next.tag), flavour.name()));
                 let accepted = matches!(obs.res, PullResult::Accept(..));
                 out.note(&format!("deliver wrong {} identical={} -> {}", kind.kind(), identical, match &obs.res { PullResult::Accept(..) => "accept", PullResult::Reject => "reject", PullResult::Unwind(..) => "unwind" }));
